@@ -13,13 +13,12 @@ import (
 )
 
 func rewriteMetadata(p string, stat *types.Stat) error {
-	for key, value := range stat.Xattrs {
-		sysx.LSetxattr(p, key, value, 0)
-	}
-
 	if err := os.Lchown(p, int(stat.Uid), int(stat.Gid)); err != nil {
 		return errors.WithStack(err)
 	}
+
+	// after the ownership change: the kernel drops security.capability on chown
+	rewriteXattrs(p, stat)
 
 	if os.FileMode(stat.Mode)&os.ModeSymlink == 0 {
 		if err := os.Chmod(p, os.FileMode(stat.Mode)); err != nil {
@@ -32,6 +31,12 @@ func rewriteMetadata(p string, stat *types.Stat) error {
 	}
 
 	return nil
+}
+
+func rewriteXattrs(p string, stat *types.Stat) {
+	for key, value := range stat.Xattrs {
+		sysx.LSetxattr(p, key, value, 0)
+	}
 }
 
 // handleTarTypeBlockCharFifo is an OS-specific helper function used by
